@@ -21,6 +21,7 @@ import (
 
 	"github.com/alibaba/sentinel-golang/core/base"
 	"github.com/alibaba/sentinel-golang/util"
+	"github.com/alibaba/sentinel-golang/util/vhook"
 )
 
 const (
@@ -79,25 +80,30 @@ func (c *ThrottlingChecker) DoCheck(_ base.StatNode, batchCount uint32, threshol
 	// The interval between two requests (in nanoseconds).
 	intervalNs := int64(math.Ceil(float64(batchCount) / threshold * float64(c.statIntervalNs)))
 
+	vhook.Yield(201)
 	loadedLastPassedTime := atomic.LoadInt64(&c.lastPassedTime)
 	// Expected pass time of this request.
 	expectedTime := loadedLastPassedTime + intervalNs
 	if expectedTime <= curNano {
+		vhook.Yield(202)
 		if swapped := atomic.CompareAndSwapInt64(&c.lastPassedTime, loadedLastPassedTime, curNano); swapped {
 			// nil means pass
 			return nil
 		}
 	}
 
+	vhook.Yield(203)
 	estimatedQueueingDuration := atomic.LoadInt64(&c.lastPassedTime) + intervalNs - curNano
 	if estimatedQueueingDuration > c.maxQueueingTimeNs {
 		return base.NewTokenResultBlockedWithCause(base.BlockTypeFlow, BlockMsgQueueing, rule, nil)
 	}
 
+	vhook.Yield(204)
 	oldTime := atomic.AddInt64(&c.lastPassedTime, intervalNs)
 	estimatedQueueingDuration = oldTime - curNano
 	if estimatedQueueingDuration > c.maxQueueingTimeNs {
 		// Subtract the interval.
+		vhook.Yield(205)
 		atomic.AddInt64(&c.lastPassedTime, -intervalNs)
 		return base.NewTokenResultBlockedWithCause(base.BlockTypeFlow, BlockMsgQueueing, rule, nil)
 	}
